@@ -225,6 +225,18 @@ func c07Setup() []string {
 	}
 }
 
+// c07SetupOpen: the same tree, but the source-side writable handles that wrote the files are still
+// open (state shared between the handles of one file must not let a read-only handle act for them)
+func c07SetupOpen() []string {
+	var l []string
+	for _, x := range c07Setup() {
+		if !strings.HasPrefix(x, "h.close") {
+			l = append(l, x)
+		}
+	}
+	return l
+}
+
 func c07HandleOps(hi int) []string {
 	return []string{
 		fmt.Sprintf("h.read %d 3", hi), fmt.Sprintf("h.write %d 5858", hi), fmt.Sprintf("h.writeat %d 5959 1", hi),
@@ -257,6 +269,17 @@ func c07Exhaustive(tier string) []corr.Case {
 			}
 			l = append(l, "rename "+h(tg)+" "+h("/moved"), "rename "+h("/top")+" "+h(tg), "stat "+h(tg), "snapshot")
 			cases = append(cases, corr.Case{Lines: l})
+			// the same reads while the source's own writable handles on the files are still open
+			for _, fl := range []int{-1, 0, 0x101000, 0x80, 0x1000} {
+				l := append([]string{"case " + st}, c07SetupOpen()...)
+				if fl < 0 {
+					l = append(l, "open "+h(tg))
+				} else {
+					l = append(l, fmt.Sprintf("openfile %s %d 420", h(tg), fl))
+				}
+				l = append(l, "h.read 3 3", "h.stat 3", "h.close 3", "stat "+h(tg), "open "+h(tg), "h.readdirnames 4 -1", "h.close 4", "snapshot")
+				cases = append(cases, corr.Case{Lines: l})
+			}
 		}
 	}
 	return cases
@@ -274,6 +297,9 @@ func c07Random(r *corr.Rand, tier string) []corr.Case {
 		rr := r.Fork()
 		st := corr.Pick(rr, []string{"ro-mem", "ro-mem", "ro-os", "ro-bp", "ro-ro"})
 		l := append([]string{"case " + st}, c07Setup()...)
+		if rr.Chance(30) {
+			l = append([]string{"case " + st}, c07SetupOpen()...)
+		}
 		nh := 3
 		for k := 0; k < 10+rr.Intn(25); k++ {
 			p := corr.Pick(rr, names)
